@@ -1190,9 +1190,13 @@ class CodeGenerator(StructuredCodeGenerator):
         sym_table = self.sym_kind_table.per_phase_table.get(
                 self.current_function, {})
 
+        # Variables are released early, right after their last use, where
+        # that is possible. That code is not reached if the phase is left
+        # early (FailStep, SwitchPhase) or if the last use sits in a branch
+        # that is not taken, so everything (still) held is released here.
+        # Releasing a variable that has already been released is harmless.
         for identifier, sym_kind in sorted(sym_table.items()):
-            if (identifier, self.current_function) not in self.last_used_stmt_table:
-                self.emit_variable_deinit(identifier, sym_kind)
+            self.emit_variable_deinit(identifier, sym_kind)
 
         # }}}
 
